@@ -7,6 +7,7 @@ import os
 import random
 import signal
 import sys
+import shutil
 import tempfile
 
 MARKERS = ('BATCH', 'number of tasks is', 'PACKET_LENGTH', 'initialization time', 'Edition after batch number', 'number of batches used',
@@ -243,6 +244,20 @@ def classify(f):
     return f'{what} @ {marker or "other line"}'
 
 
+def free_format_copy(path, dest_dir):
+    '''the same listing with the number of batches written on the line AFTER the BATCH keyword (free format of the data file echoed at the top of the listing):
+    the scanner then does not know how many batches were required'''
+    import re
+    data = open(path, 'rb').read().decode('utf-8', errors='surrogateescape')
+    new, k = re.subn(r'(?m)^([ \t]*BATCH)[ \t]+(\d+)[ \t]*$', lambda m: m.group(1) + '\n' + ' ' * len(m.group(1)) + m.group(2), data, count=1)
+    if not k:
+        return None
+    dest = os.path.join(dest_dir, 'freeformat_' + os.path.basename(path))
+    with open(dest, 'wb') as f:
+        f.write(new.encode('utf-8', errors='surrogateescape'))
+    return dest
+
+
 def sweep(tier, seed, known=(), every_byte_for=()):
     from concurrent.futures import ProcessPoolExecutor
     files = listings()
@@ -252,11 +267,30 @@ def sweep(tier, seed, known=(), every_byte_for=()):
         every_byte_for = tuple(os.path.basename(p) for p in files if os.path.getsize(p) < 70000)
     nparts = 4 if tier == 'quick' else 16
     jobs = [(p, tier, seed, part, nparts, os.path.basename(p) in every_byte_for) for p in files for part in range(nparts)]
+    derived_dir = tempfile.mkdtemp(prefix='c11d_', dir='/var/tmp')
+    derived = {}
+    for p in sorted(files, key=os.path.getsize):
+        if len(derived) >= 2:
+            break
+        try:
+            ok = bool(full_reference(p)['images'])
+        except Exception:      # noqa
+            ok = False
+        d = free_format_copy(p, derived_dir) if ok else None
+        if d:
+            derived[d] = p
+            jobs += [(d, tier, seed, part, nparts, False) for part in range(nparts)]
     n, fails = 0, []
     with ProcessPoolExecutor(max_workers=min(16, os.cpu_count() or 4)) as ex:
         for cnt, fl in ex.map(sweep_file, jobs):
             n += cnt
             fails.extend(fl)
+    for f in fails:
+        src = next((v for k, v in derived.items() if os.path.basename(k) == os.path.basename(f['input']['listing'])), None)
+        if src:
+            f['input']['listing'] = os.path.relpath(src, repo_root())
+            f['input']['rewritten'] = 'the number of batches moved to the line after the BATCH keyword'
+    shutil.rmtree(derived_dir, ignore_errors=True)
     # the same PATH parsed again after its content changed (a job run again in the same directory and killed): what is reported is what the file holds NOW
     import logging
     import warnings
@@ -305,7 +339,7 @@ def sweep(tier, seed, known=(), every_byte_for=()):
                      f'{200 if tier == "quick" else 2000} seeded random offsets per file + offsets 0, 1, n-1, n'
                      + (f'; EVERY byte offset of the {len(every_byte_for)} listings below 70 kB' if every_byte_for else '') + f'; {PER_PARSE_SECONDS} s limit per prefix; editions whose text block differs from the '
                      'complete listing are always parsed and compared, identical blocks are re-parsed for a sample; compared: every key of ParseResult.res except run_data and the elapsed_time of '
-                     'parallel jobs (printed after the edition); 3 pairs of listings written one after the other at the same path (complete, half, 200 bytes, empty)',
+                     'parallel jobs (printed after the edition); 3 pairs of listings written one after the other at the same path (complete, half, 200 bytes, empty); 2 listings re-written with the number of batches on the line after the BATCH keyword, cut at the same kinds of offsets',
             'samples': [{'listing': 'tests/eponine/tripoli4/data/ttsSimplePacket20.d.res.ceav5', 'cut_at_byte': 1234}]}
 
 
@@ -315,9 +349,12 @@ def replay(inp):
     logging.disable(logging.CRITICAL)
     warnings.filterwarnings('ignore')
     path = os.path.join(repo_root(), inp['listing'])
-    data = open(path, 'rb').read()
-    full = full_reference(path)
     with tempfile.TemporaryDirectory(prefix='c11_', dir='/var/tmp') as td:
+        if inp.get('rewritten'):
+            os.makedirs(os.path.join(td, 'src'))
+            path = free_format_copy(path, os.path.join(td, 'src'))
+        data = open(path, 'rb').read()
+        full = full_reference(path)
         probs = check_prefix(path, data, inp['cut_at_byte'], full, td, [1])
     return {'reproduced': bool(probs), 'observed': probs}
 
